@@ -271,9 +271,14 @@ def gen_exprs(tier, rng):
         elif k == "quot":
             out.append(p.Quotient(u, v))
         elif k == "pow":
+            if _has_polynomial(u):
+                continue        # Polynomial objects define ** for integer exponents only (legacy arithmetic type): the power rule's f**(g-1) is outside the statement's fragment
             out.append(p.Power(u, v))
         elif k == "powc":
-            out.append(p.Power(u, rng.choice([2, 3, -1])))
+            ex_ = rng.choice([2, 3, -1])
+            if _has_polynomial(u) and ex_ < 0:
+                continue        # as above: no negative powers of Polynomial objects
+            out.append(p.Power(u, ex_))
         elif k == "call":
             f = rng.choice([pf.sin, pf.cos, pf.tan, pf.log, pf.exp, pf.sinh, pf.cosh, pf.tanh, pf.expm1, pf.fabs])
             out.append(f(u))
@@ -286,6 +291,19 @@ def gen_exprs(tier, rng):
             c = p.CommonSubexpression(p.Product((u, v)), "pre")
             out.append(p.Quotient(c, p.Sum((c, w, 5))))
     return out
+
+
+def _has_polynomial(e):
+    import dataclasses
+    import pymbolic.primitives as p
+    from pymbolic.polynomial import Polynomial
+    if isinstance(e, Polynomial):
+        return True
+    if isinstance(e, p.Expression) and dataclasses.is_dataclass(e):
+        return any(_has_polynomial(getattr(e, f.name)) for f in dataclasses.fields(e))
+    if isinstance(e, tuple):
+        return any(_has_polynomial(c) for c in e)
+    return False
 
 
 POINTS = [dict(x=Fraction(3, 2), y=Fraction(2), a=[Fraction(1, 3), Fraction(5, 2)]),
